@@ -409,7 +409,43 @@ Proof.
       cbn iota; rewrite Hc; cbn [negb orb]; unfold type_at, snd_of, bind; rewrite E1; reflexivity.
 Qed.
 
-Lemma K_cond c e a b : Kst c -> Kst e -> Kst a -> Kst b -> Kst (TCond c e a b).
+(* the extends operand of a conditional type, skipped with disallowConditionalTypes *)
+Lemma extends_operand e Q :
+  (match e with TInferC _ c' => Kst c' | _ => Kst e end) ->
+  (match e with TInferC x c' => normal x && wfb c' && (4 <=? prec c') | _ => wfb e && (1 <=? prec e) && nc_ok e end) = true ->
+  Ev (CType LLowest fl_nocond (R e (tk1 KQuestion :: Q))) (0, tk1 KQuestion :: Q).
+Proof.
+  intros Ke We.
+  assert (Hgen : forall e', Kst e' -> wfb e' && (1 <=? prec e') && nc_ok e' = true ->
+            Ev (CType LLowest fl_nocond (R e' (tk1 KQuestion :: Q))) (0, tk1 KQuestion :: Q)).
+  { intros e' K W. apply andb_true_iff in W as [W N]. apply andb_true_iff in W as [W P].
+    apply K; auto; try (unfold LLowest, LPrefix; lia); try (intros; lia).
+    - apply lvl_ok_lowest.
+    - apply tail_ok_harmless. reflexivity.
+    - apply suffix_stop. reflexivity. }
+  destruct e; try (apply Hgen; assumption).
+  (* infer x extends c' *)
+  apply andb_true_iff in We as [We Hp]. apply andb_true_iff in We as [Hx Wc].
+  cbn [R].
+  assert (HC : Ev (CType LPrefix fl_nocond (R e (tk1 KQuestion :: Q))) (0, tk1 KQuestion :: Q)).
+  { apply Ke; auto; try (unfold LPrefix; lia); try (intros; lia).
+    - apply lvl_ok_prec. lia.
+    - intros _. apply nc_ok_prec4. lia.
+    - apply tail_ok_harmless. reflexivity.
+    - apply suffix_stop. reflexivity. }
+  eapply type_of_prefix; [|apply suffix_stop; reflexivity].
+  eapply ev1; [exact HC|]. intros s E1. cbn [F]. unfold F_prefix. cbn [hd_tk tk1 fst tl].
+  change (ident_kind c_infer) with IkInfer. cbn iota.
+  assert (X1 : colon_q_in ((KIdent x, false) :: (KExtends, false) :: R e (tk1 KQuestion :: Q)) = false) by reflexivity.
+  change (tk1 (KIdent x) :: tk1 KExtends :: R e (tk1 KQuestion :: Q)) with ((KIdent x, false) :: (KExtends, false) :: R e (tk1 KQuestion :: Q)).
+  rewrite X1. cbn [negb orb].
+  assert (X2 : expect_ident ((KIdent x, false) :: (KExtends, false) :: R e (tk1 KQuestion :: Q)) = Ok ((KExtends, false) :: R e (tk1 KQuestion :: Q))) by reflexivity.
+  rewrite X2. unfold bind at 1. cbn iota beta.
+  assert (X3 : is KExtends ((KExtends, false) :: R e (tk1 KQuestion :: Q)) = true) by reflexivity. rewrite X3. cbn [tl].
+  unfold type_at, snd_of, bind. rewrite E1. cbn iota beta. reflexivity.
+Qed.
+
+Lemma K_cond c e a b : Kst c -> (match e with TInferC _ c' => Kst c' | _ => Kst e end) -> Kst a -> Kst b -> Kst (TCond c e a b).
 Proof.
   intros Kc Ke Ka Kb W lvl f post r Hl Hlv Hf Ht Hst Hs. cbn [R wfb tail_ok prec lvl_ok] in *.
   repeat match goal with H : _ && _ = true |- _ => apply andb_true_iff in H as [? ?] end.
@@ -421,10 +457,7 @@ Proof.
                   (CType LLowest fl0 (R a (tk1 KColon :: R b post))) (0, tk1 KColon :: R b post)
                   (CType LLowest fl0 (R b post)) (0, post)
                   (CSuffix lvl f post) (0, r)).
-    + apply Ke; auto; try (unfold LLowest, LPrefix; lia); try (intros; lia).
-      * apply lvl_ok_lowest.
-      * apply tail_ok_harmless. reflexivity.
-      * apply suffix_stop. reflexivity.
+    + apply extends_operand; assumption.
     + apply K_delim; auto. reflexivity. apply tail_ok_harmless. reflexivity.
     + apply K_delim; auto.
     + exact Hs.
